@@ -24,6 +24,8 @@ def _mc(flavour, regime="S", bug="", depth=3, tdepth=3, every=40, tevery=8, thin
 
 
 MODEL = dict(
+    # unbounded amounts: Apalache discharges the conservation / freeze invariant as an inductive invariant (thorough tier)
+    proofs=[dict(name="ApaFungible", cmd=["lib/apalache.sh", "ApaFungible"], tiers=("thorough",))],
     bin="fungible",
     trace="Trace_Fungible",
     mc=[
